@@ -9,6 +9,8 @@ import GrmVerif.Lemmas.KeptRun
 import GrmVerif.Lemmas.KeptCert
 import GrmVerif.Lemmas.KeptCertEx
 import GrmVerif.Lemmas.KeptCols
+import GrmVerif.Lemmas.CpctRun
+import GrmVerif.Lemmas.CpctEx
 /-!
 # C05 — every reported repair sequence repairs; parsing continues as if it were applied
 
@@ -771,5 +773,276 @@ example : plainFrom exG2 exA2 [0] [0, 2, 3] 0 = .accepted := by decide
 /-- the reported error is where the plain parse of the unedited input fails (token 2, after the same
 kept reduction) -/
 example : plainFrom exG2 exA2 [0] [0, 2, 4] 0 = .refusedAt 2 := by decide
+
+
+/-! ## Capstone: the modelled recoverer satisfies the hypotheses
+
+Up to here the recoverer is a parameter with the hypotheses `FirstApplies` and `FirstValid`. The
+recoverer that IS the model of CPCT+ — `Cpct.cpctRecover` (`Model/Cpct.lean`): `SearchImpl.recoverImpl`
+(Dijkstra search with node merging, `collect_repairs`, `rank_cnds`, `simplify_repairs`,
+`apply_repairs` of the first reported sequence, all proved in C06) seen through the interface of
+`recRun` — satisfies them, so the whole-run theorems hold of the model of the WHOLE recovering parser
+with hypotheses on the table and the costs only:
+
+* `Cpct.TableOK E`: every token costs at least 1 (`parse_actions` asserts it), no state shifts the
+  end-of-input token, `state_actions` of every state lists exactly the tokens whose action is not
+  `Error` (`C16.state_actions_spec`; decidable: `stateActionsExactB`), `PARSE_AT_LEAST ≥ 1` (it is 3);
+  in the capstones it is derived from `wholeRunCert` (`Cpct.tableOK_of_cert`) and `stateActionsExactB`;
+* `HashSetLike hs` (the order in which the `HashSet` of `simplify_repairs` hands its elements back is a
+  parameter; any order will do);
+* they hold for EVERY window `win`, `%avoid_insert` set, lexeme offsets and search budget `sfuel` (a
+  search that runs out of budget reports nothing, like the real one that runs out of time).
+
+`FirstApplies`/`FirstValid` quantify over ALL configurations, while `Parser::lr` calls `recover` only
+when the top state refuses the next lexeme, inside the input (`Cpct.errCfg`); they are stated for
+`Cpct.cpctRecoverAt` (`cpctRecover` at such configurations, `none` elsewhere) and, pointwise, for
+`cpctRecover` itself at such configurations. `cpct_restriction_invisible` shows the restriction cannot
+be observed in a run, and the capstones are about `recRun` with the UNRESTRICTED `cpctRecover`. -/
+
+section Capstone
+open Cpct SearchImpl RankImpl
+
+/-- **(a) The modelled recoverer continues from where its first reported sequence leads.** On a table
+with `TableOK`, for every `HashSet` order, `%avoid_insert` set, lexeme offsets, window and search
+budget: `FirstApplies` holds of `cpctRecoverAt`; and at every configuration at which `Parser::lr`
+calls `recover` (`errCfg`), if `cpctRecover` reports `s0 :: rest` and continues from `c'`, then `c'` is
+`applySeq` of `s0` — plain LR semantics — from the error configuration (`apply_repairs` agrees with
+`applySeq` on sequences that apply, and `s0` does: it is a prefix of a `Search` sequence). -/
+theorem cpct_first_applies (E : Env) (hT : TableOK E) (hs : List Seq → List Seq) (hhs : HashSetLike hs)
+    (avoid : Nat → Bool) (lexStart : Nat → Nat) (win sfuel : Nat) :
+    FirstApplies E.G E.A E.w (cpctRecoverAt E hs avoid lexStart win sfuel) ∧
+    ∀ c c' s0 rest, errCfg E.G E.A E.w c = true →
+      cpctRecover E hs avoid lexStart win sfuel c = some (c', s0 :: rest) →
+      applySeq E.G E.A E.w c s0 = some c' := by
+  refine ⟨cpctAt_firstApplies hT hhs, ?_⟩
+  intro c c' s0 rest hc h
+  rw [← cpctAt_of_errCfg hc] at h
+  exact cpctAt_firstApplies hT hhs c c' s0 rest h
+
+/-- **(b) Every sequence the modelled recoverer reports repairs.** Same hypotheses: `FirstValid … N`
+with `N = E.N = PARSE_AT_LEAST` holds of `cpctRecoverAt`; and at every `errCfg` configuration EVERY
+sequence `cpctRecover` reports — not only the first — satisfies `validSeq … PARSE_AT_LEAST`: it is a
+minimum-cost `Search` sequence (`C06.search_sound`) with its trailing Shifts stripped (`rank_cnds` only
+filters, `simplify_repairs` strips), the full sequence ends in `PARSE_AT_LEAST` Shifts or in acceptance
+(`C06.search_sequence_valid`), and `continueFrom` performs the stripped Shifts (`validSeq_stripped`).
+No window hypothesis is needed. -/
+theorem cpct_first_valid (E : Env) (hT : TableOK E) (hs : List Seq → List Seq) (hhs : HashSetLike hs)
+    (avoid : Nat → Bool) (lexStart : Nat → Nat) (win sfuel : Nat) :
+    FirstValid E.G E.A E.w E.N (cpctRecoverAt E hs avoid lexStart win sfuel) ∧
+    ∀ c c' rs, errCfg E.G E.A E.w c = true →
+      cpctRecover E hs avoid lexStart win sfuel c = some (c', rs) →
+      ∀ r ∈ rs, validSeq E.G E.A E.w E.N c r = true := by
+  refine ⟨cpctAt_firstValid hT hhs, ?_⟩
+  intro c c' rs hc h
+  rw [← cpctAt_of_errCfg hc] at h
+  exact cpctAt_allValid hT hhs h
+
+/-- **The restriction to the configurations `Parser::lr` calls `recover` at cannot be observed.** On a
+table with `TableOK`, from every start within the input, with every fuel: the recovering driver
+(`recRun`; the instrumented `recRunO` with any fuel of `feed`) does exactly the same with the
+unrestricted `cpctRecover` as with `cpctRecoverAt`, and every configuration it hands to the recoverer
+(`recCalls`) is an `errCfg`. -/
+theorem cpct_restriction_invisible (E : Env) (hT : TableOK E) (hs : List Seq → List Seq) (hhs : HashSetLike hs)
+    (avoid : Nat → Bool) (lexStart : Nat → Nat) (win sfuel : Nat) (c : Pos) (hc : c.pos ≤ E.w.length)
+    (fuel : Nat) (errs : List Err) :
+    recRun E.G E.A E.w (cpctRecover E hs avoid lexStart win sfuel) fuel c errs =
+      recRun E.G E.A E.w (cpctRecoverAt E hs avoid lexStart win sfuel) fuel c errs ∧
+    (∀ ff, recRunO E.G E.A E.w (cpctRecover E hs avoid lexStart win sfuel) ff fuel c errs =
+      recRunO E.G E.A E.w (cpctRecoverAt E hs avoid lexStart win sfuel) ff fuel c errs) ∧
+    ∀ x ∈ recCalls E.G E.A E.w (cpctRecover E hs avoid lexStart win sfuel) fuel c,
+      errCfg E.G E.A E.w x = true :=
+  ⟨recRun_cpct_guard hT hhs fuel c errs hc, fun ff => recRunO_cpct_guard hT hhs ff fuel c errs hc,
+   recCalls_cpct_errCfg hT hhs fuel c hc⟩
+
+/-- **Capstone: every repair sequence the modelled recovering parser reports repairs** — the first
+sentence of C05 for the model of the WHOLE parser (LR driver + CPCT+ search + ranking + replay). On a
+table with `TableOK`, for every `HashSet` order, `%avoid_insert` set, lexeme offsets, window, search
+budget, driver fuel and start within the input: the errors the run appends are, in order, the calls of
+the recoverer (`recCalls`: the configuration — reduced stack and position — the driver is in) with what
+`cpctRecover` reported there; every call is at a configuration `Parser::lr` calls `recover` at; and
+EVERY sequence reported at a call satisfies `validSeq … PARSE_AT_LEAST` at that configuration (it applies
+with plain LR semantics and the plain parse then runs `PARSE_AT_LEAST` further lexemes or accepts) and
+inserts only tokens of the grammar other than end-of-input. -/
+theorem cpct_every_reported_sequence_repairs (E : Env) (hT : TableOK E) (hs : List Seq → List Seq)
+    (hhs : HashSetLike hs) (avoid : Nat → Bool) (lexStart : Nat → Nat) (win sfuel : Nat)
+    (fuel : Nat) (c0 : Pos) (hc0 : c0.pos ≤ E.w.length) (errs : List Err) :
+    (recRun E.G E.A E.w (cpctRecover E hs avoid lexStart win sfuel) fuel c0 errs).2 =
+      errs ++ (recCalls E.G E.A E.w (cpctRecover E hs avoid lexStart win sfuel) fuel c0).map
+        (errOf (cpctRecover E hs avoid lexStart win sfuel)) ∧
+    ∀ x ∈ recCalls E.G E.A E.w (cpctRecover E hs avoid lexStart win sfuel) fuel c0,
+      errCfg E.G E.A E.w x = true ∧
+      ∀ r ∈ (errOf (cpctRecover E hs avoid lexStart win sfuel) x).repairs,
+        validSeq E.G E.A E.w E.N x r = true ∧ ∀ t, Repair.insert t ∈ r → t < E.G.ntoks ∧ t ≠ E.G.eof := by
+  refine ⟨recRun_eq_calls _ _ _ _ fuel c0 errs, ?_⟩
+  intro x hx
+  have he := recCalls_cpct_errCfg hT hhs fuel c0 hc0 x hx
+  refine ⟨he, ?_⟩
+  intro r hr
+  cases hrec : cpctRecover E hs avoid lexStart win sfuel x with
+  | none => simp [errOf, hrec] at hr
+  | some y =>
+    obtain ⟨c', rs⟩ := y
+    have hr' : r ∈ rs := by simpa [errOf, hrec] using hr
+    obtain ⟨_, k, _, hall⟩ := cpct_report hT hhs he hrec
+    exact ⟨(hall r hr').1, (hall r hr').2.1⟩
+
+/-- **Capstone: with the modelled CPCT+ recoverer, a value means the plain parse of the edited input
+accepts.** `recRun_is_plain_parse_of_edited_input_certified` for `recover := cpctRecover …` — the model
+of the whole recovering parser: LR driver + search + ranking + replay. Hypotheses on the table and the
+costs only: `wholeRunCert` (decidable), `stateActionsExactB` (decidable), every token costs ≥ 1,
+`PARSE_AT_LEAST ≥ 1`; any `HashSet` order; an input without the end-of-input token; a start within the
+input on a stack that is a path of the automaton. For every window, `%avoid_insert` set and search
+budget. -/
+theorem cpct_recovering_parse_is_plain_parse_of_edited_input (E : Env)
+    (hcert : wholeRunCert E.G E.A = true) (hsa : stateActionsExactB E.G E.A = true)
+    (hcost : ∀ t, 1 ≤ E.cost t) (hN : 1 ≤ E.N) (hs : List Seq → List Seq) (hhs : HashSetLike hs)
+    (avoid : Nat → Bool) (lexStart : Nat → Nat) (win sfuel : Nat) (hw : E.G.eof ∉ E.w)
+    (fuel : Nat) (c : Pos) (errs errs' : List Err) (hc : c.pos ≤ E.w.length) (hp : IsPath E.A c.stack)
+    (h : recRun E.G E.A E.w (cpctRecover E hs avoid lexStart win sfuel) fuel c errs = (true, errs')) :
+    ∃ new, errs' = errs ++ new ∧
+      (∃ st, FeedsTo E.G E.A c.stack (editedToks E.w E.w.length c.pos new) st ∧ AcceptsAt E.G E.A E.G.eof st) ∧
+      PlainIs E.G E.A c.stack (editedToks E.w E.w.length c.pos new) .accepted := by
+  have hT := tableOK_of_cert (wholeRunCert_unpack hcert).1 hsa hcost hN
+  rw [recRun_cpct_guard hT hhs fuel c errs hc] at h
+  exact recRun_is_plain_parse_of_edited_input_certified E.G E.A E.w _ hcert (cpctAt_firstApplies hT hhs)
+    E.N hN (cpctAt_firstValid hT hhs) hw fuel c errs errs' hc hp h
+
+/-- **Capstone: with the modelled CPCT+ recoverer, later errors are exactly those of parsing the input
+with the first sequence of each earlier error applied.**
+`reported_errors_are_plain_errors_of_edited_input_certified` for `recover := cpctRecover …`; hypotheses
+as in `cpct_recovering_parse_is_plain_parse_of_edited_input`, any result (value or not). -/
+theorem cpct_reported_errors_are_plain_errors_of_edited_input (E : Env)
+    (hcert : wholeRunCert E.G E.A = true) (hsa : stateActionsExactB E.G E.A = true)
+    (hcost : ∀ t, 1 ≤ E.cost t) (hN : 1 ≤ E.N) (hs : List Seq → List Seq) (hhs : HashSetLike hs)
+    (avoid : Nat → Bool) (lexStart : Nat → Nat) (win sfuel : Nat) (hw : E.G.eof ∉ E.w)
+    (fuel : Nat) (c : Pos) (errs : List Err) (v : Bool) (errs' : List Err) (hc : c.pos ≤ E.w.length)
+    (hp : IsPath E.A c.stack)
+    (h : recRun E.G E.A E.w (cpctRecover E hs avoid lexStart win sfuel) fuel c errs = (v, errs')) :
+    ∃ new, errs' = errs ++ new ∧ Ordered E.w.length c.pos new ∧ ∀ pre e post, new = pre ++ e :: post →
+      c.pos ≤ e.pos ∧ e.pos ≤ E.w.length ∧
+      editedItems E.w.length c.pos pre = editedItems e.pos c.pos pre ++ reals e.pos E.w.length ∧
+      (∃ st, FeedsTo E.G E.A c.stack (editedToks E.w e.pos c.pos pre) st ∧
+        RefusesAt E.G E.A (nextTok E.G E.w e.pos) st) ∧
+      PlainIs E.G E.A c.stack (editedToks E.w E.w.length c.pos pre)
+        (.refusedAt (editedToks E.w e.pos c.pos pre).length) := by
+  have hT := tableOK_of_cert (wholeRunCert_unpack hcert).1 hsa hcost hN
+  rw [recRun_cpct_guard hT hhs fuel c errs hc] at h
+  exact reported_errors_are_plain_errors_of_edited_input_certified E.G E.A E.w _ hcert
+    (cpctAt_firstApplies hT hhs) E.N hN (cpctAt_firstValid hT hhs) hw fuel c errs v errs' hc hp h
+
+/-- **Capstone: with the modelled CPCT+ recoverer, a run that gives up stops where the plain parse of
+the edited input has its first error.** `unrepaired_error_is_first_error_of_edited_input_certified` for
+`recover := cpctRecover …`; same hypotheses. (The recoverer gives up when the search finds no repair of
+representable cost, when its budget runs out, or when the model of the real code panics:
+`Cpct.cpctOutcome`.) -/
+theorem cpct_unrepaired_error_is_first_error_of_edited_input (E : Env)
+    (hcert : wholeRunCert E.G E.A = true) (hsa : stateActionsExactB E.G E.A = true)
+    (hcost : ∀ t, 1 ≤ E.cost t) (hN : 1 ≤ E.N) (hs : List Seq → List Seq) (hhs : HashSetLike hs)
+    (avoid : Nat → Bool) (lexStart : Nat → Nat) (win sfuel : Nat) (hw : E.G.eof ∉ E.w)
+    (fuel : Nat) (c : Pos) (errs : List Err) (v : Bool) (errs' : List Err) (hc : c.pos ≤ E.w.length)
+    (hp : IsPath E.A c.stack)
+    (h : recRun E.G E.A E.w (cpctRecover E hs avoid lexStart win sfuel) fuel c errs = (v, errs')) :
+    ∃ new, errs' = errs ++ new ∧ ∀ pre e, new = pre ++ [e] → e.repairs = [] →
+      editedItems E.w.length c.pos new = editedItems E.w.length c.pos pre ∧
+      PlainIs E.G E.A c.stack (editedToks E.w E.w.length c.pos new)
+        (.refusedAt (editedToks E.w e.pos c.pos pre).length) := by
+  have hT := tableOK_of_cert (wholeRunCert_unpack hcert).1 hsa hcost hN
+  rw [recRun_cpct_guard hT hhs fuel c errs hc] at h
+  exact unrepaired_error_is_first_error_of_edited_input_certified E.G E.A E.w _ hcert
+    (cpctAt_firstApplies hT hhs) E.N hN (cpctAt_firstValid hT hhs) hw fuel c errs v errs' hc hp h
+
+/-- **Capstone: with the modelled CPCT+ recoverer, a returned tree's leaves spell the repaired input.**
+`returned_tree_spells_edited_input_certified` for `recover := cpctRecover …`, and its remaining
+hypothesis "the edited input consists of real tokens" is DISCHARGED: the input consists of tokens of the
+grammar other than end-of-input (`InputOk`), every first sequence applies (so the lexemes it shifts
+exist) and inserts only tokens of the grammar other than end-of-input (`Search` never inserts
+end-of-input and inserts tokens below `ntoks` only). So: whenever the model of the whole recovering
+parser returns a value, the plain LR driver with trees accepts the edited token list and its tree is a
+valid derivation from the start rule whose leaves are exactly the edited input. -/
+theorem cpct_returned_tree_spells_edited_input (E : Env)
+    (hcert : wholeRunCert E.G E.A = true) (hsa : stateActionsExactB E.G E.A = true)
+    (hcost : ∀ t, 1 ≤ E.cost t) (hN : 1 ≤ E.N) (hs : List Seq → List Seq) (hhs : HashSetLike hs)
+    (avoid : Nat → Bool) (lexStart : Nat → Nat) (win sfuel : Nat) (hw : InputOk E.G E.w)
+    (fuel : Nat) (errs : List Err)
+    (h : recRun E.G E.A E.w (cpctRecover E hs avoid lexStart win sfuel) fuel ⟨[E.A.start], 0⟩ [] = (true, errs)) :
+    ∃ fuel' t, LR.parse E.G E.A (editedToks E.w E.w.length 0 errs) fuel' = .accept t ∧
+      Tree.valid E.G t = true ∧ (∃ S, E.G.rhs E.G.startProd = [.rule S] ∧ Tree.root E.G t = .rule S) ∧
+      Tree.yield t = editedToks E.w E.w.length 0 errs ∧
+      Tree.leafIdxs t = List.range (editedItems E.w.length 0 errs).length := by
+  have hT := tableOK_of_cert (wholeRunCert_unpack hcert).1 hsa hcost hN
+  have hcalls := recRun_eq_calls E.G E.A E.w (cpctRecover E hs avoid lexStart win sfuel) fuel ⟨[E.A.start], 0⟩ []
+  rw [h] at hcalls
+  simp only [List.nil_append] at hcalls
+  have hin : InputOk E.G (editedToks E.w E.w.length 0 errs) := by
+    rw [hcalls]
+    exact inputOk_editedToks hw _ 0 (cpct_run_goodErrs hT hhs fuel _ (Nat.zero_le _))
+  have hweof : E.G.eof ∉ E.w := fun hm => (hw _ hm).2 rfl
+  rw [recRun_cpct_guard hT hhs fuel _ [] (Nat.zero_le _)] at h
+  exact returned_tree_spells_edited_input_certified E.G E.A E.w _ hcert (cpctAt_firstApplies hT hhs)
+    E.N hN (cpctAt_firstValid hT hhs) hweof fuel errs h hin
+
+end Capstone
+
+
+/-! ## Tests for the capstone: the modelled recoverer on the certified merged table
+(`Lemmas/CpctEx.lean`: the automaton of `Lemmas/KeptCertEx.lean` with its `state_actions` view; input
+`x a d`, every token costs 1, `PARSE_AT_LEAST = 3`, `TRY_PARSE_AT_MOST = 250`, search budget 200) -/
+
+section CapstoneTests
+open Cpct SearchImpl RankImpl
+
+/-- the hypotheses on table and costs hold, by evaluation -/
+example : wholeRunCert exG2 exA3 = true := ex3_cert
+example : stateActionsExactB exG2 exA3 = true := ex3_sa
+example : TableOK exE := tableOK_of_cert (wholeRunCert_unpack ex3_cert).1 ex3_sa ex3_cost (by decide)
+example : HashSetLike dedup := hashSetLike_dedup
+/-- `d` is refused after `A → a` was reduced under it; that is a configuration `recover` is called at -/
+example : feed exG2 exA3 4 FUEL [6, 2, 0] = .error [4, 2, 0] := by rfl
+example : errCfg exG2 exA3 [0, 2, 4] ⟨[4, 2, 0], 2⟩ = true := by decide
+/-- the modelled CPCT+ evaluated on this real error: one minimum-cost repair (cost 2), `Insert c,
+Delete`; parsing continues on `[9, 4, 2, 0]` at the end of the input -/
+example : exRec ⟨[4, 2, 0], 2⟩ = some (⟨[9, 4, 2, 0], 3⟩, [[.insert 3, .delete]]) := by decide +kernel
+example : cpctOutcome exE dedup (fun _ => false) (fun i => 3 * i + 1) 250 200 ⟨[4, 2, 0], 2⟩ = .repaired := by
+  decide +kernel
+/-- with a budget of 3 iterations the search runs out: nothing is reported, the parse gives up -/
+example : cpctRecover exE dedup (fun _ => false) (fun i => 3 * i + 1) 250 3 ⟨[4, 2, 0], 2⟩ = none := by
+  decide +kernel
+example : cpctOutcome exE dedup (fun _ => false) (fun i => 3 * i + 1) 250 3 ⟨[4, 2, 0], 2⟩ = .outOfBudget := by
+  decide +kernel
+/-- (a), (b) obtained from the theorems for this call -/
+example : applySeq exG2 exA3 [0, 2, 4] ⟨[4, 2, 0], 2⟩ [.insert 3, .delete] = some ⟨[9, 4, 2, 0], 3⟩ :=
+  (cpct_first_applies exE (tableOK_of_cert (wholeRunCert_unpack ex3_cert).1 ex3_sa ex3_cost (by decide)) dedup
+    hashSetLike_dedup (fun _ => false) (fun i => 3 * i + 1) 250 200).2 _ _ _ [] (by decide) (by decide +kernel)
+example : validSeq exG2 exA3 [0, 2, 4] 3 ⟨[4, 2, 0], 2⟩ [.insert 3, .delete] = true :=
+  (cpct_first_valid exE (tableOK_of_cert (wholeRunCert_unpack ex3_cert).1 ex3_sa ex3_cost (by decide)) dedup
+    hashSetLike_dedup (fun _ => false) (fun i => 3 * i + 1) 250 200).2 ⟨[4, 2, 0], 2⟩ ⟨[9, 4, 2, 0], 3⟩
+    [[.insert 3, .delete]] (by decide) (by decide +kernel) _ List.mem_cons_self
+/-- … and by evaluation -/
+example : validSeq exG2 exA3 [0, 2, 4] 3 ⟨[4, 2, 0], 2⟩ [.insert 3, .delete] = true := by decide
+/-- the whole modelled recovering parse of `x a d`: one error at `d`, repaired, a value -/
+example : recRun exG2 exA3 [0, 2, 4] exRec 10 ⟨[0], 0⟩ [] = (true, [⟨2, [[.insert 3, .delete]]⟩]) := by
+  decide +kernel
+/-- the calls of the recoverer in this run, and `cpct_every_reported_sequence_repairs` on it -/
+example : recCalls exG2 exA3 [0, 2, 4] exRec 10 ⟨[0], 0⟩ = [⟨[4, 2, 0], 2⟩] := by decide +kernel
+/-- the capstone's conclusion for this run, obtained from the theorem: the plain parse of the edited
+input `x a c` accepts … -/
+example : plainFrom exG2 exA3 [0] (editedToks [0, 2, 4] 3 0 [⟨2, [[.insert 3, .delete]]⟩]) 0 = .accepted := by
+  obtain ⟨new, h1, _, h3⟩ := cpct_recovering_parse_is_plain_parse_of_edited_input exE ex3_cert ex3_sa ex3_cost
+    (by decide) dedup hashSetLike_dedup (fun _ => false) (fun i => 3 * i + 1) 250 200 (by decide) 10 ⟨[0], 0⟩ [] _
+    (by decide) (IsPath.start exA3) (by decide +kernel :
+      recRun exG2 exA3 [0, 2, 4] exRec 10 ⟨[0], 0⟩ [] = (true, [⟨2, [[.insert 3, .delete]]⟩]))
+  simp only [List.nil_append] at h1
+  subst h1
+  exact h3.2 (by decide)
+/-- … and by evaluation -/
+example : editedToks [0, 2, 4] 3 0 [⟨2, [[.insert 3, .delete]]⟩] = [0, 2, 3] := by decide
+example : plainFrom exG2 exA3 [0] [0, 2, 3] 0 = .accepted := by decide
+/-- a longer input, `x e a d d`: the reported sequence has a Shift INSIDE (`Delete, Shift, Insert c,
+Delete, Delete`); the run returns a value -/
+example : recRun exG2 exA3 [0, 5, 2, 4, 4]
+    (cpctRecover ⟨exG2, exA3, [0, 5, 2, 4, 4], fun _ => 1, 3⟩ dedup (fun _ => false) (fun i => 3 * i + 1) 250 200)
+    20 ⟨[0], 0⟩ [] = (true, [⟨1, [[.delete, .shift, .insert 3, .delete, .delete]]⟩]) := by decide +kernel
+
+end CapstoneTests
 
 end GrmVerif.C05
